@@ -424,10 +424,19 @@ impl Storage {
         let key = Key::Meta(LAST_STATE_KEY).into_vec();
         let mut value = total_difficulty.to_le_bytes().to_vec();
         value.extend(tip_header.as_slice());
-        self.db
+        // The last n headers belong to the tip: if only the tip was written (a crash between two
+        // writes), a later reorg would be compared with the headers of the previous tip.
+        let mut batch = self.batch();
+        batch
             .put(key, &value)
-            .expect("db put last state should be ok");
-        self.update_last_n_headers(last_n_headers);
+            .expect("batch put last state should be ok");
+        batch
+            .put(
+                Key::Meta(LAST_N_HEADERS_KEY).into_vec(),
+                Self::last_n_headers_value(last_n_headers),
+            )
+            .expect("batch put last n headers should be ok");
+        batch.commit().expect("batch commit should be ok");
     }
 
     pub fn get_last_state(&self) -> (U256, Header) {
@@ -445,17 +454,15 @@ impl Storage {
             .expect("tip header should be inited")
     }
 
-    pub fn update_last_n_headers(&self, headers: &[HeaderView]) {
-        let key = Key::Meta(LAST_N_HEADERS_KEY).into_vec();
+    fn last_n_headers_value(headers: &[HeaderView]) -> Vec<u8> {
         let mut value: Vec<u8> = Vec::with_capacity(headers.len() * 40);
         for header in headers {
             value.extend(header.number().to_le_bytes());
             value.extend(header.hash().as_slice());
         }
-        self.db
-            .put(key, &value)
-            .expect("db put last n headers should be ok");
+        value
     }
+
     pub fn get_last_n_headers(&self) -> Vec<(u64, Byte32)> {
         let key = Key::Meta(LAST_N_HEADERS_KEY).into_vec();
         self.db
